@@ -9,6 +9,7 @@ The queue length is enumerated 0..11 (11 = one more than the capacity, reachable
 path of the drain); each entry is fully symbolic.  Labelled bounded: the loop runs over the concrete
 length.
 """
+from pyvc.values import unmodelled as _unmodelled  # noqa: E402
 from pyvc.sym import And, Or, Not, Implies, ite
 from pyvc.vc import oset
 from contracts.sockworld import make_world, SOCK
@@ -148,7 +149,7 @@ class _EntryRef:
             return _SReal(_EXPIRY(self.idt))
         if name in ("header", "message", "retries_remaining"):
             return _Opaque(name + "-of-queued-entry")
-        raise it.exc("AttributeError", name)
+        raise _unmodelled(self, name)
 
 
 class SeqDeque:
@@ -204,7 +205,7 @@ class SeqDeque:
             def appendleft(x):
                 self.t = _z3.Concat(_z3.Unit(self.id_of(it, x)), self.t)
             return _Builtin("deque.appendleft", appendleft)
-        raise it.exc("AttributeError", name)
+        raise _unmodelled(self, name)
 
 
 def _seq_eq(a, b):
